@@ -5,6 +5,7 @@ import (
 	"fmt"
 	"github.com/semafind/semadb/shard/index/vamana"
 	"os"
+	"strconv"
 	"strings"
 	"sync"
 	"sync/atomic"
@@ -383,6 +384,11 @@ func (s *schedRun) one(bno int, b SchedBehaviour) error {
 			if s.where(a) == "@op" {
 				s.advance(a)
 			}
+		case "Pause":
+			// hand-written schedules: everybody stays where they are for so many milliseconds
+			if ms, err := strconv.Atoi(st.Kind); err == nil {
+				time.Sleep(time.Duration(ms) * time.Millisecond)
+			}
 		case "RUntil":
 			// hand-written schedules: the reader moves on, gate by gate, until it stands inside the named function
 			a := st.Arg
@@ -446,7 +452,13 @@ func (s *schedRun) one(bno int, b SchedBehaviour) error {
 			// persisted graph, whatever other searches do to the shared cache meanwhile; it is compared
 			// at once (the rest of the schedule may be the one of known finding C09-a) with a single search
 			// on a cold copy of the file
-			if begun == 0 && started[a] && s.where(a) == "done" && vecProp.Type == models.IndexTypeVectorVamana && !r.Cfg.Mem {
+			// (the same once every write batch of the behaviour is over and the search began after the last one:
+			// its snapshot is the committed state, which is also what the copy of the file holds; not in the history
+			// of known finding C09-c)
+			s.mu.Lock()
+			quiet := begun == 0 || ((!started["w"] || s.where("w") == "done") && s.snap[a] == s.over.Load() && !r.staleRisk)
+			s.mu.Unlock()
+			if quiet && started[a] && s.where(a) == "done" && vecProp.Type == models.IndexTypeVectorVamana && !r.Cfg.Mem {
 				s.mu.Lock()
 				mine, ok := s.ranked[a]
 				q := s.query[a]
